@@ -107,3 +107,50 @@ extern "C" void h_observers()
     }
     vp_assert(runs == 1 && got == v, "C13 exactly once with the value");
 }
+
+// ---- re-entry from inside the continuation (quantifier: "re-enter from inside the continuation") -------------------------------
+// (a) void result: a continuation attached from inside the running continuation (through another task copy) runs exactly once, now.
+extern "C" void h_reenter_void_then()
+{
+    static char ctxbuf[16];
+    QObject *ctx = reinterpret_cast<QObject *>(ctxbuf);
+    QXmppPromise<void> p; QXmppTask<void> t1 = p.task(); QXmppTask<void> t2 = t1;
+    QXmppTask<void> *other = &t2;
+    bool attachFirst = vp_bool();
+    auto outer = [other, ctx]() { runs++; other->then(ctx, []() { inner_runs++; }); };
+    if (attachFirst) { t1.then(ctx, outer); p.finish(); } else { p.finish(); t1.then(ctx, outer); }
+    vp_assert(runs == 1, "C13 continuation runs exactly once (void, re-entrant)");
+    vp_assert(inner_runs == 1, "C13 a continuation attached from inside the running continuation runs exactly once (void)");
+}
+// (b) a second completion arriving while the first is being handled, guarded by the library's own idiom
+//     `if (!task.isFinished()) promise.finish(...)`, must not run the continuation again.
+template<typename T> static void reenterRefinish()
+{
+    static char ctxbuf[16];
+    QObject *ctx = reinterpret_cast<QObject *>(ctxbuf);
+    QXmppPromise<T> p; QXmppTask<T> t = p.task();
+    QXmppPromise<T> *pp = &p; QXmppTask<T> *tp = &t;
+    int v = vp_int(), v2 = vp_int();
+    bool attachFirst = vp_bool();
+    auto cont = [pp, tp, v2](T &&x) { runs++; if (runs == 1) got = Val<T>::read(x);
+        if (runs < 3 && !tp->isFinished()) pp->finish(Val<T>::make(v2)); };          // capped: a broken implementation would recurse forever
+    if (attachFirst) { t.then(ctx, cont); p.finish(Val<T>::make(v)); } else { p.finish(Val<T>::make(v)); t.then(ctx, cont); }
+    vp_assert(runs == 1, "C13 continuation runs exactly once although a guarded second finish happens inside it");
+    vp_assert(got == v, "C13 continuation receives the value of the first finish");
+    vp_assert(t.isFinished(), "C13 task is finished afterwards");
+}
+extern "C" void h_reenter_int_refinish() { reenterRefinish<int>(); }
+extern "C" void h_reenter_uptr_refinish() { reenterRefinish<std::unique_ptr<int>>(); }
+// (c) observers from inside the continuation: the task already counts as finished while its continuation runs
+extern "C" void h_reenter_observe()
+{
+    static char ctxbuf[16];
+    QObject *ctx = reinterpret_cast<QObject *>(ctxbuf);
+    QXmppPromise<int> p; QXmppTask<int> t = p.task(); QXmppTask<int> *tp = &t;
+    static bool finishedInside; int v = vp_int();
+    bool attachFirst = vp_bool();
+    auto cont = [tp](int &&x) { runs++; got = x; finishedInside = tp->isFinished(); };
+    if (attachFirst) { t.then(ctx, cont); p.finish(int(v)); } else { p.finish(int(v)); t.then(ctx, cont); }
+    vp_assert(runs == 1 && got == v, "C13 exactly once with the value");
+    vp_assert(finishedInside, "C13 the task is finished (no second completion possible) while its continuation runs");
+}
